@@ -65,6 +65,21 @@ def arr_node_nonarray_err(fn, D):
     return None
 
 
+def is_array_established(fn, D, b):
+    """the decoded disclosure D is known to be a JSON array at block b: the Some edge of as_array guards b, or D is the payload of a
+    `Value::Array` pattern (a downcast is only reachable when the discriminant matched), or the true edge of is_array() guards b"""
+    aa = arr_node_nonarray_err(fn, D)
+    g = success_edges(fn, aa)[0] if aa is not None else []
+    if g and guarded(fn, b, g):
+        return True
+    for x in walk(D):
+        if x.kind == "variant" and x.d.get("variant") == "Array":
+            return True
+    good = [(bb, tt) for (bb, tt, ft, c) in bool_switches(fn) if c.kind == "call" and c.d["term"].get("name") == "is_array" and c.kids
+            and any(y is peel(c.kids[0]) for y in walk(D))]
+    return bool(good) and guarded(fn, b, good)
+
+
 def e2_e3(ctx, fx, U):
     ctx.floor("C08.E2", "object-member sinks", len(U.obj_sinks), 1)
     ctx.floor("C08.E2", "array-element sinks", len(U.elem_sinks), 1)
@@ -98,9 +113,7 @@ def e2_e3(ctx, fx, U):
             if g and guarded(fn, b, g) and must(name, lambda x: x is a):
                 okn = True
         chk(ctx, "C08.E2", fn, line, "member-name-string", okn, "name is the as_str()-Some of element 1 (a non-string name is an Err)", "the disclosed member name is not required to be a JSON string")
-        aa = arr_node_nonarray_err(fn, D)
-        g = success_edges(fn, aa)[0] if aa is not None else []
-        chk(ctx, "C08.E2", fn, line, "member-is-array", bool(g) and guarded(fn, b, g), "a non-array disclosure is an Err", "a referenced disclosure that is not a JSON array is not rejected")
+        chk(ctx, "C08.E2", fn, line, "member-is-array", is_array_established(fn, D, b), "a non-array disclosure is an Err", "a referenced disclosure that is not a JSON array is not rejected")
         # E3
         is_name = lambda x: may(name, lambda y: y is x) or x is peel(name)
         name_root = peel(name)
@@ -162,9 +175,7 @@ def e2_e3(ctx, fx, U):
             ctx.ok("C08.E2", fn, "element-arity", "A7: at Ok(Some(..)) the decoded disclosure has length set {2}", line=line)
         else:
             ctx.finding("C08.E2", fn, "element-arity", "an array-element disclosure is accepted with length set %s (must be exactly 2 elements: a 3-element disclosure would yield its name as the element)" % fmt_lenset(ls), line=line)
-        aa = arr_node_nonarray_err(fn, D)
-        g = success_edges(fn, aa)[0] if aa is not None else []
-        chk(ctx, "C08.E2", fn, line, "element-is-array", bool(g) and guarded(fn, e["bb"], g), "a non-array disclosure is an Err", "a referenced disclosure that is not a JSON array is not rejected")
+        chk(ctx, "C08.E2", fn, line, "element-is-array", is_array_established(fn, D, e["bb"]), "a non-array disclosure is an Err", "a referenced disclosure that is not a JSON array is not rejected")
 
 
 def e4(ctx, fx, U):
@@ -246,7 +257,7 @@ def e5(ctx, fx, U):
             if t.get("resolved") in lookup_fns and t.get("resolved") != fn.name:
                 n = fv.call_node(b)
                 for k in n.kids[1:]:
-                    gets = [x for x in walk(k) if x.kind == "call" and x.d["term"].get("name") == "get" and len(x.kids) > 1 and const_value(x.kids[1]) == "..."]
+                    gets = [x for x in walk(k) if x.kind == "call" and x.d["term"].get("name") in ("get", "index") and len(x.kids) > 1 and const_value(x.kids[1]) == "..."]
                     for gnode in gets:
                         n_ph += 1
                         obj = peel(gnode.kids[0])
@@ -271,13 +282,28 @@ def e5(ctx, fx, U):
 
 def placeholder_len(fn, obj):
     """length set of the placeholder object; contains_key(obj, _)==true additionally implies len >= 1"""
-    st = length_sets(fn, obj)
+    fv = vals(fn)
+    # when the placeholder is held as a JSON value, a successful keyed lookup in it (`Value::get("...")` is None for a non-object) means
+    # it is an object on every path that reaches the use: the as_object()-None edges are infeasible there
+    removed = []
+    keyed = []
+    for b2, t2 in fn.calls():
+        n2 = fv.call_node(b2)
+        if n2.kids and peel(n2.kids[0]) is obj:
+            if t2.get("name") == "as_object":
+                removed.extend(success_edges(fn, n2)[1])
+            elif t2.get("name") == "get" and (t2.get("self_ty") or "") == "serde_json::Value":
+                keyed.extend(success_edges(fn, n2)[0])
+    use_removed = bool(removed) and bool(keyed)
+    st = length_sets(fn, obj, removed=set(removed) if use_removed else None)
+    if use_removed:
+        st0 = length_sets(fn, obj)
+        st = dict((b, (s if guarded(fn, b, keyed) else st0.get(b, s))) for b, s in st.items())
     good = []
     for (bb, tt, ft, c) in bool_switches(fn):
         if c.kind == "call" and c.d["term"].get("name") == "contains_key" and c.kids and peel(c.kids[0]) is obj:
             good.append((bb, tt))
     # a successful keyed lookup in the same object implies the same
-    fv = vals(fn)
     for b2, t2 in fn.calls():
         if t2.get("name") in ("get", "get_key_value", "index"):
             n2 = fv.call_node(b2)
